@@ -28,6 +28,13 @@ def run(tier, rep):
         n_ex = len(specs)
         specs += render.generate(wd, rep, num=400 if q else 4000, seed=seed(), tag="sim")
         specs += render.generate(wd, rep, num=150 if q else 1500, seed=seed() + 1, tag="sim4", MaxVars=4, MaxTerms=3, MaxStack=3)
+        # flattening: a pair replaced in place when adjacent in the listed order, innermost otherwise (exhaustive for <= 3 variables, one product term
+        # of <= 2 tensors; simulated with shape / occupancy stacks on the other ranks)
+        flat = render.generate(wd, rep, num=None, tag="exflat", MaxVars=3, MaxTerms=1, MaxFacs=2, AllowAffine="FALSE", AllowTake="FALSE", AllowPart="FALSE", MaxStack=0, AllowFlat="TRUE")
+        flat += render.generate(wd, rep, num=300 if q else 3000, seed=seed() + 2, tag="simflat", MaxVars=4, MaxTerms=2, MaxFacs=3, AllowAffine="FALSE", MaxStack=1, AllowFlat="TRUE")
+        flat = [sp for sp in flat if any(st and st[0]["k"] == "flatten" for st in sp["stacks"])]
+        rep.cov["specifications_with_flattening"] = len(flat)
+        specs += flat
         # the default does not depend on the generator's own ro/lo choice: one record per (Einsum, partitioning)
         seen, recs, keep = set(), [], []
         for sp in specs:
